@@ -27,7 +27,10 @@ ID = "C08"
 LEAN_MODULES = ["Barril.Props.C08"]
 DRIVERS = ["drv_cmp"]
 DRIVER_EXE = "drv_cmp"
-RULE = ("(a) order: every ordered unit pair (ua,ub) of a seeded set of quantity types of the posc database (always "
+RULE = ("(a0) cross-type order: every ordered pair of operands {Scalar, FractionScalar} x {table units of different "
+        "quantity types, the <unknown> unit (quantity type Unknown) without/with a caption, the empty quantity} x two "
+        "values, all four operators (TypeError iff the quantity types differ; mixed Scalar/FractionScalar pairs "
+        "included); (a) order: every ordered unit pair (ua,ub) of a seeded set of quantity types of the posc database (always "
         "temperature and pressure, i.e. affine and gauge units), Scalar and FractionScalar, b's amount physically equal "
         "to / 1e-9 beside / far from a's, all six operators, plus cross-type pairs (TypeError); (b) equality: ALL ordered "
         "pairs of a pool with >=3 objects of every class (simple, derived, empty and unknown quantities; list/tuple/ndarray "
@@ -476,8 +479,81 @@ def _untnum(d):
     return {"none": lambda: None, "str": lambda: d["v"], "tuple": lambda: (), "num": lambda: _unnum(d["v"])}[d["k"]]()
 
 
+XVALS = {"scalar": (1.5, 2.5), "fscalar": ((1.0, 1, 2), (2.0, 1, 4))}
+XFIXED = (("m", "length"), ("degC", "temperature"), ("s", "time"))
+
+
+def _xorder_cases(ctx, salt, n_random):
+    """every ordered pair of operands {Scalar, FractionScalar} x {table units of different quantity types, the
+    `<unknown>` unit of the quantity type Unknown without / with a caption, the empty quantity} x two dyadic values:
+    all four operators.  Two operands of one quantity type always share the unit here, so every verdict is exact."""
+    db = ctx.db
+    rng = ctx.fresh_rng("C08xorder" + salt)
+    quants = [dict(k="simple", unit=u, cat=c, caption=None) for u, c in XFIXED]
+    seen = {db.GetQuantityType(u) for u, _c in XFIXED} | {"Unknown"}
+    qts = sorted(q for q in db.quantity_types if q not in seen)
+    rng.shuffle(qts)
+    for qt in qts[:n_random]:
+        u = rng.choice([i.unit for i in db.quantity_types[qt]])
+        c = _cat_for(ctx, rng, qt, u)
+        if c is not None:
+            quants.append(dict(k="simple", unit=u, cat=c, caption=None))
+    quants += [dict(k="unknown", unit="<unknown>", cat="Unknown", caption=cap) for cap in (None, "foo", "bar")]
+    quants.append(dict(k="empty", unit="", cat="", caption=None))
+    operands = []
+    for q in quants:
+        for cls in ("scalar", "fscalar"):
+            for v in XVALS[cls]:
+                operands.append(dict(q, cls=cls, v=v))
+
+    def side(o):
+        d = dict(cls=o["cls"], q=dict(k="empty") if o["k"] == "empty" else
+                 dict(k="simple", cat=str(sym(o["cat"])), unit=str(sym(o["unit"]))))
+        if o["cls"] == "scalar":
+            d["value"] = qstr(exact(o["v"]))
+        else:
+            n, num, den = o["v"]
+            fr = F(num, den)
+            d.update(number=qstr(exact(n)), frac="%d/%d" % (fr.numerator, fr.denominator))
+        return d
+
+    for a in operands:
+        for b in operands:
+            yield dict(op="xorder", db="posc", small=ctx.small, a=side(a), b=side(b),
+                       _t=dict(a=dict(a, v=list(a["v"]) if a["cls"] == "fscalar" else a["v"]),
+                               b=dict(b, v=list(b["v"]) if b["cls"] == "fscalar" else b["v"])))
+
+
+def _xmk(o):
+    """the real operand of an xorder case (the private database must be the singleton)"""
+    from barril.basic.fraction import FractionValue
+    from barril.units import FractionScalar, GetUnknownQuantity, ObtainQuantity, Quantity, Scalar
+
+    if o["k"] == "simple":
+        q = ObtainQuantity(o["unit"], o["cat"])
+    elif o["k"] == "unknown":
+        q = GetUnknownQuantity(o["caption"])
+    else:
+        q = Quantity.CreateEmpty()
+    if o["cls"] == "scalar":
+        return Scalar(q, o["v"])
+    n, num, den = o["v"]
+    return FractionScalar(q, FractionValue(n, (num, den)))
+
+
+def _xshow(o):
+    v = o["v"] if o["cls"] == "scalar" else "FractionValue(%r, (%r, %r))" % tuple(o["v"])
+    name = "Scalar" if o["cls"] == "scalar" else "FractionScalar"
+    if o["k"] == "simple":
+        return "%s(%s, %r, %r)" % (name, v, o["unit"], o["cat"])
+    if o["k"] == "unknown":
+        return "%s(GetUnknownQuantity(%r), %s)" % (name, o["caption"], v)
+    return "%s(Quantity.CreateEmpty(), %s)" % (name, v)
+
+
 def cases(ctx):
     quick = ctx.tier == "quick"
+    yield from _xorder_cases(ctx, "corr", 3 if quick else 12)
     yield from _order_cases(ctx, "corr", 14 if quick else 70, 2 if quick else 4)
     yield from _eq_cases(ctx, "base" if quick else "wide")
     yield from _frac_cases(ctx, "corr", 6 if quick else 40)
@@ -500,6 +576,8 @@ def show(c):
                 return "Scalar(%r, %r, %r)" % (_unnum(v), d["unit"], d["cat"])
             return "FractionScalar(FractionValue(%r, (%r, %r)), %r, %r)" % (_unnum(v[0]), v[1], v[2], d["unit"], d["cat"])
         return dict(op="order", a=s(t["a"]), b=s(t["b"]), tag=t["tag"])
+    if c["op"] == "xorder":
+        return dict(op="xorder", a=_xshow(t["a"]), b=_xshow(t["b"]))
     if c["op"] == "eqpair":
         return dict(op="eqpair", pool=t["pool"], i=t["i"], j=t["j"], a=c["a"]["c"], b=c["b"]["c"])
     if c["op"] == "fracord":
@@ -538,6 +616,11 @@ def impl(c, ctx):
                 except Exception as e:
                     out["getvalue"] = err_kind(e)
             return out
+        if c["op"] == "xorder":
+            with _Use(ctx.db):
+                a, b = _xmk(t["a"]), _xmk(t["b"])
+                return dict(ord={k: _res(lambda k=k: PYOP[k](a, b)) for k in OPS},
+                            qta=a.GetQuantityType(), qtb=b.GetQuantityType())
         if c["op"] == "eqpair":
             a, b = _pool_objs(c, ctx)
             with _Use(ctx.db):
@@ -620,6 +703,19 @@ def agree(c, io, mo, ctx):
             if io["ord"][k] != mord[k]:
                 return "%s: impl=%r model=%r (amounts %s vs %s)" % (k, io["ord"][k], mord[k], float(v1), float(v2))
         return None
+    if c["op"] == "xorder":
+        mord = m["ord"]
+        for k in OPS:
+            want = mord if "err" in mord else mord[k]
+            if not _same_res(io["ord"][k], want):
+                return "%s: impl=%r model=%r" % (k, io["ord"][k], want)
+        key = ("xorder_cross_type_typeerror" if io["qta"] != io["qtb"] else
+               "xorder_same_type_error" if "err" in mord else "xorder_same_type_decided")
+        n[key] = n.get(key, 0) + 1
+        kinds = n.setdefault("xorder_operand_kinds", {})
+        kk = "%s/%s<>%s/%s" % (c["_t"]["a"]["cls"], c["_t"]["a"]["k"], c["_t"]["b"]["cls"], c["_t"]["b"]["k"])
+        kinds[kk] = kinds.get(kk, 0) + 1
+        return None
     if c["op"] == "eqpair":
         for k in ("eq", "ne"):
             if not _same_res(io[k], m[k]):
@@ -672,6 +768,8 @@ def agree(c, io, mo, ctx):
 
 
 def nontrivial(c, io):
+    if c["op"] == "xorder":
+        return c["_t"]["a"] != c["_t"]["b"]
     if c["op"] == "order":
         return c["a"]["unit"] != c["b"]["unit"] and all(isinstance(io["ord"][k], bool) for k in OPS)
     if c["op"] == "eqpair":
@@ -764,8 +862,30 @@ def _oracle_order(c, ctx):
     return None
 
 
+def _oracle_xorder(c, ctx):
+    """== clauses, and: ordering values of different quantity types raises TypeError (all four operators, both
+    operand orders).  Nothing is demanded of two operands of one quantity type here."""
+    t = c["_t"]
+    with _Use(ctx.db):
+        a, b = _xmk(t["a"]), _xmk(t["b"])
+        f = _eq_clauses(a, b)
+        if f:
+            return dict(f, a=_xshow(t["a"]), b=_xshow(t["b"]))
+        if a.GetQuantityType() != b.GetQuantityType():
+            for k in OPS:
+                for x, y, xs, ys in ((a, b, t["a"], t["b"]), (b, a, t["b"], t["a"])):
+                    r = _res(lambda: PYOP[k](x, y))
+                    if not (isinstance(r, dict) and r.get("exc") == "TypeError"):
+                        return dict(clause="ordering values of different quantity types raises TypeError", op=k,
+                                    a=_xshow(xs), b=_xshow(ys), got=r,
+                                    quantity_types=[x.GetQuantityType(), y.GetQuantityType()])
+    return None
+
+
 def oracle(c, ctx):
     try:
+        if c["op"] == "xorder":
+            return _oracle_xorder(c, ctx)
         if c["op"] == "order":
             return _oracle_order(c, ctx)
         if c["op"] == "eqpair":
@@ -864,6 +984,7 @@ def search(ctx):
     """equality pool first, then Fraction cases, then order cases; order cases of the documented input class
     `CLASS_FLUSH` (a finding of its own, see the module docstring) come last so that they do not hide a new defect"""
     quick = ctx.tier == "quick"
+    yield from _xorder_cases(ctx, "search", 10 if quick else 40)
     yield from _eq_cases(ctx, "wide")
     yield from _frac_cases(ctx, "search", 10)
     late = []
